@@ -7,7 +7,7 @@ from kvfam import neutralise_line, validate_traces
 from vlib import (HarnessError, build, finish, log, mc_coverage, parallel, read_line, report_violation,
                   run_driver, save_replay, tlc_mc, tlc_trace, trace_lines)
 
-C06_KINDS = {"install"}
+C06_KINDS = {"install", "compaction"}
 C07_KINDS = {"stremove", "settled", "reclaimed", "iter", "snapget", "snaphas", "get", "has", "hang"}
 
 ASSUME = ["table entries are read back from the files by the harness with the table reader (checksums on) inside the setVersion hook",
